@@ -47,7 +47,7 @@ import PyhfProofs.Properties.C02_Gen
 namespace Pyhf.Props.C02
 open Pyhf Pyhf.Interp Pyhf.Props.C01
 ''']
-for shape,nb in (('shapeD',2),('shapeE',1),('shapeF',2)):
+for shape,nb in (('shapeD',2),('shapeE',1),('shapeF',2),('shapeH',2)):
     g=sig(f'{shape}_bin0'); syms,pars=g[0],g[1]
     hyps=' '.join(f'(_h{x} : 0 < {x})' for x in syms)
     allv=' '.join(syms+pars)
@@ -91,24 +91,29 @@ and the stitch of the expected auxiliary data address the right row and the righ
 namespace Pyhf.Props.C10
 open Pyhf
 ''']
+for shape in ('shapeF', 'shapeH'):
+    g=sig(f'{shape}_logpdf'); syms,pars,dv=g[0],g[1],g[2]
+    S=' '.join(syms)
+    R=' '.join(f'r{t}_{v}' for t in range(2) for v in pars)
+    D=' '.join(f'r{t}_{v}' for t in range(2) for v in dv)
+    for t in range(2):
+        rp=' '.join(f'r{t}_{v}' for v in pars); rd=' '.join(f'r{t}_{v}' for v in dv)
+        out3.append(f'''/-- {shape}: row {t} of the batched `logpdf` = the unbatched `logpdf` of row {t}'s parameters on row {t}'s data -/
+    theorem {shape}_batch_row{t}_logpdf_eq (lpois : ℝ → ℝ → ℝ) (lnorm : ℝ → ℝ → ℝ → ℝ) ({S} {R} {D} : ℝ) :
+        Gen.{shape}_batch_row{t}_logpdf realPrim lpois lnorm {S} {R} {D} = Gen.{shape}_logpdf realPrim lpois lnorm {S} {rp} {rd} := by
+      first | rfl | (unfold Gen.{shape}_batch_row{t}_logpdf Gen.{shape}_logpdf; norm_num <;> ring_nf)
+    ''')
+        for k in range(len(dv)):
+            out3.append(f'''/-- {shape}: row {t}, entry {k} of the batched `expected_data` = entry {k} of the unbatched one at row {t}'s parameters -/
+    theorem {shape}_batch_row{t}_expdata{k}_eq (lpois : ℝ → ℝ → ℝ) (lnorm : ℝ → ℝ → ℝ → ℝ) ({S} {R} {D} : ℝ) :
+        Gen.{shape}_batch_row{t}_expdata{k} realPrim lpois lnorm {S} {R} {D} = Gen.{shape}_expdata{k} realPrim {S} {rp} := by
+      first | rfl | (unfold Gen.{shape}_batch_row{t}_expdata{k} Gen.{shape}_expdata{k}; norm_num <;> ring_nf)
+    ''')
+
+out3=[out3[0]]+[x.replace('\n    ','\n') for x in out3[1:]]
 shape='shapeF'
 g=sig(f'{shape}_logpdf'); syms,pars,dv=g[0],g[1],g[2]
 S=' '.join(syms)
-R=' '.join(f'r{t}_{v}' for t in range(2) for v in pars)
-D=' '.join(f'r{t}_{v}' for t in range(2) for v in dv)
-for t in range(2):
-    rp=' '.join(f'r{t}_{v}' for v in pars); rd=' '.join(f'r{t}_{v}' for v in dv)
-    out3.append(f'''/-- {shape}: row {t} of the batched `logpdf` = the unbatched `logpdf` of row {t}'s parameters on row {t}'s data -/
-theorem {shape}_batch_row{t}_logpdf_eq (lpois : ℝ → ℝ → ℝ) (lnorm : ℝ → ℝ → ℝ → ℝ) ({S} {R} {D} : ℝ) :
-    Gen.{shape}_batch_row{t}_logpdf realPrim lpois lnorm {S} {R} {D} = Gen.{shape}_logpdf realPrim lpois lnorm {S} {rp} {rd} := by
-  first | rfl | (unfold Gen.{shape}_batch_row{t}_logpdf Gen.{shape}_logpdf; norm_num <;> ring_nf)
-''')
-    for k in range(len(dv)):
-        out3.append(f'''/-- {shape}: row {t}, entry {k} of the batched `expected_data` = entry {k} of the unbatched one at row {t}'s parameters -/
-theorem {shape}_batch_row{t}_expdata{k}_eq (lpois : ℝ → ℝ → ℝ) (lnorm : ℝ → ℝ → ℝ → ℝ) ({S} {R} {D} : ℝ) :
-    Gen.{shape}_batch_row{t}_expdata{k} realPrim lpois lnorm {S} {R} {D} = Gen.{shape}_expdata{k} realPrim {S} {rp} := by
-  first | rfl | (unfold Gen.{shape}_batch_row{t}_expdata{k} Gen.{shape}_expdata{k}; norm_num <;> ring_nf)
-''')
 k0=len(dv)-len([v for v in dv if v.startswith('a')])
 out3.append(f'''/-- the unbatched expected data of {shape}: the two rates, then — in auxiliary-data order — the Poisson rates `γ·τ` of the uncorrelated-shape
 bins and the means `γ` of the MC-statistical bins -/
